@@ -15,3 +15,30 @@ Proof.
   split_ifs; try reflexivity; try (exfalso; lia); f_equal; f_equal; lia.
 Qed.
 Print Assumptions bridge_heartbeat_merge.
+
+(* heartbeat_reduce: the regenerated loop keeps `reduced` in order and mutates its last element; the model keeps
+   it reversed.  The loop never reads reduced[-1] of an empty list (no IndexError), for every input. *)
+Lemma py_last_rev_cons (x : event) l : py_last (rev (x :: l)) = Some x.
+Proof. unfold py_last. rewrite rev_involutive. reflexivity. Qed.
+
+Lemma py_set_last_rev_cons (x y : event) l : py_set_last (rev (x :: l)) y = rev (y :: l).
+Proof. unfold py_set_last. cbn [rev]. rewrite removelast_last. reflexivity. Qed.
+
+Lemma bridge_reduce_loop : forall p evs last older,
+  gen_reduce_loop p (rev (last :: older)) evs = Ok (reduce_loop p (last :: older) evs).
+Proof.
+  intros p evs. induction evs as [|hb rest IH]; intros last older.
+  - reflexivity.
+  - cbn [gen_reduce_loop reduce_loop]. rewrite py_last_rev_cons, bridge_heartbeat_merge.
+    destruct (heartbeat_merge last hb p) as [merged|].
+    + rewrite py_set_last_rev_cons. apply IH.
+    + change (rev (last :: older) ++ [hb]) with (rev (hb :: last :: older)). apply IH.
+Qed.
+
+Lemma bridge_heartbeat_reduce : forall events p,
+  gen_heartbeat_reduce events p = Ok (heartbeat_reduce events p).
+Proof.
+  intros [|first rest] p; [reflexivity|].
+  cbn [gen_heartbeat_reduce heartbeat_reduce app]. apply (bridge_reduce_loop p rest first []).
+Qed.
+Print Assumptions bridge_heartbeat_reduce.
